@@ -197,6 +197,64 @@ theorem merged_complete (inc ex : List CorrV) (hlen : inc.length = ex.length) (i
     refine ⟨_, h1, ?_, f1⟩
     simp [mergeV_nonempty _ _ hne]
 
+/-! ## The two byte forms of an IPv4 value
+
+  The value of an IPv4 element is a net.IP: 4 bytes as the collector decodes it, or the 16-byte
+  IPv4-mapped form (net.IPv4zero, net.ParseIP) an in-process caller may build the element with. For
+  correlateRecords both are the same address (`val.To4().String()`); the merge stores the incoming
+  value object as it is. -/
+
+/-- net.IP.To4 gives the four address bytes of either form -/
+theorem to4_of_either_form (a b c d : UInt8) :
+    to4 [a, b, c, d] = some [a, b, c, d] ∧ to4 (v4InV6Prefix ++ [a, b, c, d]) = some [a, b, c, d] := by
+  constructor <;> simp [to4, v4InV6Prefix]
+
+/-- an IPv4 correlate value is empty exactly when it IS the address 0.0.0.0 -/
+theorem ip4_empty_iff (b : Bytes) : (CorrV.ip4 b).isEmpty = true ↔ to4 b = some [0, 0, 0, 0] := by
+  simp [CorrV.isEmpty]
+
+/-- the 16-byte form of an address is empty exactly when its 4-byte form is -/
+theorem ip4_form_independent (a b c d : UInt8) :
+    (CorrV.ip4 (v4InV6Prefix ++ [a, b, c, d])).isEmpty = (CorrV.ip4 [a, b, c, d]).isEmpty := by
+  simp [CorrV.isEmpty, (to4_of_either_form a b c d).1, (to4_of_either_form a b c d).2]
+
+/-- the empty IPv4 values are the two forms of 0.0.0.0 and nothing else -/
+theorem ip4_empty_forms (b : Bytes) :
+    (CorrV.ip4 b).isEmpty = true ↔ b = [0, 0, 0, 0] ∨ b = v4InV6Prefix ++ [0, 0, 0, 0] := by
+  rw [ip4_empty_iff]
+  unfold to4
+  constructor
+  · intro h
+    split at h
+    · left; simpa using h
+    · split at h
+      · rename_i h16
+        right
+        have hd : b.drop 12 = [0, 0, 0, 0] := by simpa using h
+        calc b = b.take 12 ++ b.drop 12 := (List.take_append_drop 12 b).symm
+          _ = v4InV6Prefix ++ [0, 0, 0, 0] := by rw [h16.2, hd]
+      · cases h
+  · rintro (h | h) <;> subst h <;> simp [v4InV6Prefix]
+
+/-- 0.0.0.0 in the 16-byte form (net.IPv4zero) arriving from the other node does not overwrite what is stored -/
+theorem mapped_zero_keeps_stored (e : CorrV) (he : e ≠ .absent) :
+    mergeV (.ip4 (v4InV6Prefix ++ [0, 0, 0, 0])) e = e := by
+  have h : (CorrV.ip4 (v4InV6Prefix ++ [0, 0, 0, 0])).isEmpty = true := by decide
+  simp [mergeV, he, h]
+
+/-- an address in the 16-byte form is not empty: it is taken over, in the form it came in -/
+theorem mapped_address_overwrites (a b c d : UInt8) (hne : [a, b, c, d] ≠ [0, 0, 0, 0]) (e : CorrV) :
+    mergeV (.ip4 (v4InV6Prefix ++ [a, b, c, d])) e = .ip4 (v4InV6Prefix ++ [a, b, c, d]) := by
+  have h : (CorrV.ip4 (v4InV6Prefix ++ [a, b, c, d])).isEmpty = false := by
+    rw [ip4_form_independent]
+    simp [CorrV.isEmpty, to4]
+    simpa using hne
+  unfold mergeV
+  by_cases he : e = .absent <;> simp [he, h]
+
+example : correlate [.str [], .ip4 (v4InV6Prefix ++ [0, 0, 0, 0])] [.str [1], .ip4 [10, 96, 0, 1]] = [.str [1], .ip4 [10, 96, 0, 1]] ∧
+    correlate [.str [], .ip4 (v4InV6Prefix ++ [10, 96, 0, 9])] [.str [1], .ip4 [10, 96, 0, 1]] = [.str [1], .ip4 (v4InV6Prefix ++ [10, 96, 0, 9])] ∧
+    correlate [.str [], .ip4 [0, 0, 0, 0]] [.str [1], .ip4 (v4InV6Prefix ++ [10, 96, 0, 1])] = [.str [1], .ip4 (v4InV6Prefix ++ [10, 96, 0, 1])] := by decide
 /-- the merge has the length of the two records -/
 theorem merged_length (inc ex : List CorrV) (hlen : inc.length = ex.length) : (correlate inc ex).length = inc.length := by
   unfold correlate
